@@ -136,6 +136,11 @@ class Substituter(pysmt.walkers.IdentityDagWalker):
 
         # Deal with quantifiers
         if formula.is_quantifier():
+            # 0. A quantifier with several parents is on the stack
+            #    once per parent: it is processed the first time only
+            if self._get_key(formula, **kwargs) in self.memoization:
+                return
+
             # 1. We create a new substitution in which we remove the
             #    bound variables from the substitution map
             substitutions = kwargs["substitutions"]
